@@ -649,6 +649,7 @@ func (r *Round) Clear() {
 // Restart - restart the round
 func (r *Round) Restart() error {
 	r.mutex.Lock()
+	defer r.mutex.Unlock()
 	if r.getState() >= Share {
 		return CompleteRoundRestartError
 	}
@@ -657,7 +658,6 @@ func (r *Round) Restart() error {
 	r.resetSoftTimeoutCount()
 	r.ResetPhase(ShareVRF)
 
-	r.mutex.Unlock()
 	return nil
 }
 
